@@ -22,7 +22,41 @@ type FnReport struct {
 	HasCtr bool
 }
 
+// verifyFunction verifies fn against ct. A `split p lo hi` directive verifies it once per
+// value of the integer parameter p (a complete case split over the stated range, which the
+// precondition must imply: that implication is an obligation of its own).
 func (P *Prog) verifyFunction(fn *ssa.Function, ct *Contract) (rep *FnReport) {
+	if ct == nil || ct.SplitParam == "" {
+		return P.verifyFunctionCase(fn, ct, "", 0)
+	}
+	rep = &FnReport{Fn: fn.String(), HasCtr: true}
+	notes := map[string]bool{}
+	for v := ct.SplitLo; v <= ct.SplitHi; v++ {
+		r := P.verifyFunctionCase(fn, ct, ct.SplitParam, v)
+		if r.Err != "" {
+			rep.Err = r.Err
+			rep.Obls = nil
+			return rep
+		}
+		for _, o := range r.Obls {
+			o.Name += fmt.Sprintf("[%s=%d]", ct.SplitParam, v)
+		}
+		rep.Obls = append(rep.Obls, r.Obls...)
+		for _, n := range r.Notes {
+			notes[n] = true
+		}
+	}
+	// exhaustiveness of the split
+	r := P.verifyFunctionCase(fn, ct, "?"+ct.SplitParam, 0)
+	rep.Obls = append(rep.Obls, r.Obls...)
+	for n := range notes {
+		rep.Notes = append(rep.Notes, n)
+	}
+	sort.Strings(rep.Notes)
+	return rep
+}
+
+func (P *Prog) verifyFunctionCase(fn *ssa.Function, ct *Contract, splitParam string, splitVal int64) (rep *FnReport) {
 	rep = &FnReport{Fn: fn.String(), HasCtr: ct != nil}
 	ex := &Exec{P: P, fn: fn, contract: ct}
 	defer func() {
@@ -38,9 +72,21 @@ func (P *Prog) verifyFunction(fn *ssa.Function, ct *Contract) (rep *FnReport) {
 	st := newState()
 	fr := newFrame(fn, nil)
 	ex.top = fr
+	if ct != nil {
+		if k, ok := ct.UnrollCalls["*"]; ok {
+			fr.unrollAll = k
+		}
+	}
 	var args []Value
 	for i, p := range fn.Params {
 		v := freshValue("p."+p.Name(), p.Type())
+		if splitParam == p.Name() {
+			w, _, ok := intInfo(p.Type())
+			if !ok {
+				unsup("split on non-integer parameter %s", p.Name())
+			}
+			v = Sc{BVi(splitVal, w), p.Type()}
+		}
 		st.assume(st.wf(v))
 		if i == 0 && fn.Signature.Recv() != nil {
 			if pv, ok := v.(PtrV); ok {
@@ -67,6 +113,19 @@ func (P *Prog) verifyFunction(fn *ssa.Function, ct *Contract) (rep *FnReport) {
 		}
 	}
 	ex.entry = st.clone()
+	if strings.HasPrefix(splitParam, "?") {
+		// only the exhaustiveness obligation: requires ⇒ lo <= p <= hi
+		pv := fr.params[splitParam[1:]].(Sc)
+		w, signed, _ := intInfo(pv.Ty)
+		lo, hi := BVi(ct.SplitLo, w), BVi(ct.SplitHi, w)
+		g := And(ULe(lo, pv.T), ULe(pv.T, hi))
+		if signed {
+			g = And(SLe(lo, pv.T), SLe(pv.T, hi))
+		}
+		ex.addObl("split", "exhaustive", fn.Pos(), st, g, nil)
+		rep.Obls = ex.obls
+		return rep
+	}
 	val, out := ex.runFunction(fr, st, args)
 	if out != nil && ct != nil {
 		for _, ap := range ct.Applies {
